@@ -164,6 +164,19 @@ func c19fill(p *c19pool, m protoreflect.Message, depth int, desc *strings.Builde
 		switch fd.Kind() {
 		case protoreflect.BytesKind:
 			b, n := p.pick()
+			if fd.Name() == "group_pk" || fd.Name() == "group_public_key" {
+				// half of the time a group the session made the service know (joined, possibly never opened or closed again)
+				var known []int
+				for i, nm := range p.names {
+					if nm == "joined-group-pk" || nm == "contact-group-pk" || nm == "account-group-pk" {
+						known = append(known, i)
+					}
+				}
+				if len(known) > 0 && p.r.Pick("known_group", 2) == 0 {
+					k := known[p.r.Pick("which_group", len(known))]
+					b, n = p.bytes[k], p.names[k]
+				}
+			}
 			fmt.Fprintf(desc, "%s=%s ", fd.Name(), n)
 			if b != nil {
 				m.Set(fd, protoreflect.ValueOfBytes(b))
@@ -383,9 +396,25 @@ func c19run(t *testing.T, r *kernel.Run) {
 		case a == 8 && !joined: // make the session richer: join and activate a real multi-member group
 			joined = true
 			r.Logf("join a multi-member group")
-			if c19call(r, "MultiMemberGroupJoin valid", func() {
-				_, _ = svc.MultiMemberGroupJoin(ctx, &protocoltypes.MultiMemberGroupJoin_Request{Group: mm})
-				_, _ = svc.ActivateGroup(ctx, &protocoltypes.ActivateGroup_Request{GroupPk: mm.PublicKey, LocalOnly: true})
+			// the invitation is valid (identifier, secret, signature, type); its fields that no signature covers may
+			// hold anything; and a joined group is not necessarily opened
+			jg := proto.Clone(mm).(*protocoltypes.Group)
+			variant := r.Pick("join_variant", 5)
+			switch variant {
+			case 1:
+				jg.LinkKey, _ = pool.pick()
+			case 2:
+				jg.LinkKeySig, _ = pool.pick()
+			case 3:
+				jg.SignPub, _ = pool.pick()
+			}
+			open := r.Bool("open_after_join")
+			r.Logf("join variant %d, open=%v", variant, open)
+			if c19call(r, fmt.Sprintf("MultiMemberGroupJoin valid (variant %d) then ActivateGroup=%v", variant, open), func() {
+				_, _ = svc.MultiMemberGroupJoin(ctx, &protocoltypes.MultiMemberGroupJoin_Request{Group: jg})
+				if open {
+					_, _ = svc.ActivateGroup(ctx, &protocoltypes.ActivateGroup_Request{GroupPk: mm.PublicKey, LocalOnly: true})
+				}
 			}) {
 				return
 			}
